@@ -2,7 +2,8 @@
 Unit 1 (K1): manual_event_loop / single_thread_context vs Proto/EventLoopDefs.v.
 Unit 2 (K3): trampoline_scheduler vs Proto/TrampolineDefs.v (sequential: differential on programs).
 Unit 3 (K1): atomic_intrusive_queue vs Proto/AtomicQueueDefs.v.
-Unit 4 (K1): static_thread_pool vs Proto/ThreadPoolDefs.v."""
+Unit 4 (K1): static_thread_pool vs Proto/ThreadPoolDefs.v.
+Unit 5 (K1): new_thread_context vs Proto/NewThreadDefs.v."""
 import re
 import k1, vlib
 from units import sched
@@ -112,9 +113,9 @@ def run_trampoline(chk):
 def run(chk, replay=None):
     chk.cov["trusted_base"] = [
         "Coq 8.16.1 kernel; no axioms (Print Assumptions closed) for every theorem in Properties_C06_*.v",
-        "extraction ExtrOcamlBasic only; ocaml/lockstep.ml, handlers/h_eventloop.ml, h_trampoline.ml, h_atomicqueue.ml, h_threadpool.ml glue",
+        "extraction ExtrOcamlBasic only; ocaml/lockstep.ml, handlers/h_eventloop.ml, h_trampoline.ml, h_atomicqueue.ml, h_threadpool.ml, h_newthread.ml glue",
         "harness: verif_shim.hpp + dsched (serialises real threads: sequential consistency assumed; mutex/condvar/thread are the shim's), "
-        "k1_event_loop.cpp, k1_atomic_queue.cpp, k1_thread_pool.cpp; k3_trampoline.cpp (plain build, no shim)",
+        "k1_event_loop.cpp, k1_atomic_queue.cpp, k1_thread_pool.cpp, k1_new_thread.cpp; k3_trampoline.cpp (plain build, no shim)",
         "modelled not verified: inplace_stop_source internals (C03's model) — only the stop bit of each item's source is owned here"]
     chk.cov["rule"] = ("K1: all schedules of each program with <= bound preemptions plus seeded random ones; "
                        "distinct = distinct projected traces; non-trivial = at least two context switches among owned events. "
@@ -123,5 +124,5 @@ def run(chk, replay=None):
     k1.run_unit(chk, sched.EventLoop())
     run_trampoline(chk)
     k1.run_unit(chk, sched.AtomicQueue())
-    if hasattr(sched, "ThreadPool"):
-        k1.run_unit(chk, sched.ThreadPool())
+    k1.run_unit(chk, sched.ThreadPool())
+    k1.run_unit(chk, sched.NewThread())
